@@ -1627,6 +1627,8 @@ EnsureSizeAux(uint32 size, bool setNumItems, uint32 extraPreallocs, ItemType ** 
 {
    if (retOldArray) *retOldArray = NULL;  // default value, will be set non-NULL iff the old array needs deleting later
 
+   if ((WillUnsignedAddOverflow(size, extraPreallocs))||((size+extraPreallocs) == MUSCLE_NO_LIMIT)) return B_RESOURCE_LIMIT;  // (size+extraPreallocs) must not wrap around; nothing has been modified yet
+
    if ((setNumItems)&&(size < _itemCount)) (void) RemoveTailMulti(_itemCount-size);  // drop the surplus items first, so that the copy-loop below can never be asked to copy more items than the new array can hold
 
    if ((_queue == NULL)||(allowShrink ? (_queueSize != (size+extraPreallocs)) : (_queueSize < size)))
